@@ -1103,6 +1103,10 @@ def run(ctx, out, tier):
     # must be right wherever the tag sits in its comment (shared with C10/C03)
     from rules.C10 import check_tagpos
     check_tagpos(ctx, out, "C02.tagpos")
+    # ... and those of comments nested in Markdown HTML blocks are rebased completely (shared with C03 / C10):
+    # diff selection compares these positions with the changed columns
+    from rules.C03 import check_rebase
+    check_rebase(ctx, out, rule="C02.rebase")
     check_search(ctx, out)
     check_units(ctx, out)
     check_coord(ctx, out)
